@@ -63,6 +63,7 @@ class Check:
     assumptions: List[str] = []
     shrink_fields = ("sql", "src", "source", "text")
     shrink_budget = 120
+    thorough_pinned = False  # see _worker
 
     def selftest(self):
         pass
@@ -226,7 +227,11 @@ def _worker(check_id: str, tier: str, seed: int, shard: int, nshards: int, conn)
         findings = load_known_findings(check.id)
         frag = Fragment(check, findings)
         t_end = time.time() + check.budget_s(tier) * BUDGET_MULT
-        for i, case in enumerate(check.pinned(tier)):
+        # The larger pinned enumerations of the thorough tier are used only by the checks whose thorough baseline was
+        # established on the unchanged tree in the build round (thorough_pinned = True); the others deepen only the
+        # seeded, generated part.
+        pinned_tier = tier if (tier == "quick" or getattr(check, "thorough_pinned", False)) else "quick"
+        for i, case in enumerate(check.pinned(pinned_tier)):
             if i % nshards != shard:
                 continue
             if time.time() > t_end:
